@@ -27,7 +27,7 @@ import (
 )
 
 // types usable against SQLite (column names are valid identifiers or quoted)
-var sqliteStructs = []string{"Person", "Address", "Manager", "Embed", "EmbedPtr", "Deep", "Deep4", "Contact", "AutoID", "Omit", "PtrFields", "Unicode", "Priced", "Mixed", "Doc", "BlobOpt", "Tracked"}
+var sqliteStructs = []string{"Person", "Address", "Manager", "Embed", "EmbedPtr", "Deep", "Deep4", "Contact", "AutoID", "Omit", "PtrFields", "Unicode", "Priced", "Mixed", "Doc", "BlobOpt", "Tracked", "Wide"}
 
 func quoteCol(c string) string {
 	if strings.HasPrefix(c, "\"") || strings.HasPrefix(c, "'") {
